@@ -77,6 +77,12 @@ fn opt_sum_of(i: &Input) -> Option<u64> {
     if i.last % 2 == 0 { Some(i.weight) } else { None }
 }
 fn fdist_of(i: &Input) -> f64 {
+    // (NaN of either sign is not an observation: sort-and-merge leaves it out, everything else stays)
+    match i.last % 11 {
+        3 => return -f64::NAN,
+        4 => return f64::NAN,
+        _ => {}
+    }
     match i.weight % 7 {
         0 => f64::INFINITY,
         1 => f64::NEG_INFINITY,
@@ -883,7 +889,9 @@ pub fn check_c10(plan: &Value, run: &AggRun) -> Option<Violation> {
                 *want_dist.entry(inp.weight % 5).or_insert(0) += 1;
                 // (spelled out independently of the constructor)
                 let fv = if inp.weight % 7 == 0 { f64::INFINITY } else if inp.weight % 7 == 1 { f64::NEG_INFINITY } else { (inp.weight % 7) as f64 + 0.5 };
-                *want_fdist.entry(format!("{fv:?}")).or_insert(0) += 1;
+                if !matches!(inp.last % 11, 3 | 4) {
+                    *want_fdist.entry(format!("{fv:?}")).or_insert(0) += 1;
+                }
                 if let Some(p) = merge_pos.get(id) {
                     if latest.map(|l| *p > l.0).unwrap_or(true) {
                         latest = Some((*p, inp.last));
